@@ -8,7 +8,7 @@ os.environ.setdefault("NUMBA_DISABLE_JIT", "1")
 
 from symx import harness as H  # noqa: F401  (sets sys.path for /repo/src)
 from symx import shim, solver as S
-from symx.val import SR, Cx, Q, ctx, assume, QZERO, QONE
+from symx.val import SR, Cx, Q, ctx, assume, QZERO, QONE, EngineError, SymbolicEscape
 from symx.poly import Poly
 from symx.jet import Jet
 import symx.jet as jetmod
